@@ -6,6 +6,7 @@ import (
 	"context"
 	"encoding/json"
 	"fmt"
+	"math/big"
 	"net/http/httptest"
 	"net/url"
 	"strings"
@@ -20,6 +21,7 @@ import (
 	"github.com/formancehq/ledger/xverif/lib/recdb"
 	"github.com/formancehq/ledger/xverif/lib/storeh"
 	sharedapi "github.com/formancehq/stack/libs/go-libs/api"
+	"github.com/formancehq/stack/libs/go-libs/bun/bunpaginate"
 	"github.com/formancehq/stack/libs/go-libs/query"
 )
 
@@ -27,6 +29,7 @@ func init() { checks["C20"] = c20 }
 
 var hostile = []string{
 	"'", "''", "\\'", "\\", "\\\\", "\"", "--", "/*", "*/", ";", "$$", "$1", "?", "??", "::", "E'", "\x00", "\n", "’", "%", "_", ")", "(",
+	"?0", "?1", "?ledger", "?TableName", "?TableAlias", "?Columns", "?PKs", "%s", "%d", "%v", "%!s(MISSING)", "%[1]s",
 	"x' or 1=1 --", "x' or '1'='1", "x'); drop table logs; --", "x\" or 1=1 --", "a'||'b", "x' /*", "$tag$x$tag$", "x]", "[x", "{\"a\":1}", "\\x27", "x\\' or 1=1 --",
 	"' union select 1 --", "x?y", "x')::jsonpath or true --", "\" == \"\" || \"", "é'è",
 }
@@ -47,7 +50,7 @@ func collect(rec *recdb.Recorder) []string {
 }
 
 // storeRunner: calls one store method with a filter built from JSON.
-func storeRunner(method string, mkFilter func(v string) interface{}, pit, volumes bool) sqlRun {
+func storeRunner(method string, mkFilter func(v string) interface{}, pit, volumes, later bool) sqlRun {
 	return func(v string) ([]string, bool) {
 		raw, _ := json.Marshal(mkFilter(v))
 		qb, err := query.ParseJSON(string(raw))
@@ -72,6 +75,9 @@ func storeRunner(method string, mkFilter func(v string) interface{}, pit, volume
 			case "GetAccountsWithVolumes", "CountAccounts":
 				opts := ledgerstore.NewPaginatedQueryOptions(ledgerstore.PITFilterWithVolumes{PITFilter: ledgerstore.PITFilter{PIT: pitT}, ExpandVolumes: volumes, ExpandEffectiveVolumes: volumes}).WithQueryBuilder(qb)
 				q := ledgerstore.NewGetAccountsQuery(opts)
+				if later {
+					q.Offset = 3 // a later page, as a cursor token would carry it
+				}
 				if method == "CountAccounts" {
 					_, callErr = st.CountAccounts(ctx, q)
 				} else {
@@ -80,6 +86,9 @@ func storeRunner(method string, mkFilter func(v string) interface{}, pit, volume
 			case "GetTransactions", "CountTransactions":
 				opts := ledgerstore.NewPaginatedQueryOptions(ledgerstore.PITFilterWithVolumes{PITFilter: ledgerstore.PITFilter{PIT: pitT}, ExpandVolumes: volumes, ExpandEffectiveVolumes: volumes}).WithQueryBuilder(qb)
 				q := ledgerstore.NewGetTransactionsQuery(opts)
+				if later {
+					q.PaginationID, q.Bottom, q.Reverse = big.NewInt(7), big.NewInt(9), true
+				}
 				if method == "CountTransactions" {
 					_, callErr = st.CountTransactions(ctx, q)
 				} else {
@@ -90,7 +99,11 @@ func storeRunner(method string, mkFilter func(v string) interface{}, pit, volume
 				_, callErr = st.GetAggregatedBalances(ctx, ledgerstore.NewGetAggregatedBalancesQuery(opts))
 			case "GetLogs":
 				opts := ledgerstore.NewPaginatedQueryOptions[any](nil).WithQueryBuilder(qb)
-				_, callErr = st.GetLogs(ctx, ledgerstore.NewGetLogsQuery(opts))
+				lq := ledgerstore.NewGetLogsQuery(opts)
+				if later {
+					lq.PaginationID, lq.Bottom = big.NewInt(7), big.NewInt(9)
+				}
+				_, callErr = st.GetLogs(ctx, lq)
 			}
 		}()
 		sqls := collect(rec)
@@ -197,11 +210,17 @@ func c20Cases(thorough bool) []c20Case {
 								continue
 							}
 							ks, m, op, wf, pit, vol := ks, m, op, wf, pit, vol
-							out = append(out, c20Case{
-								Name: fmt.Sprintf("store %s %s %s %s pit=%v volumes=%v", m, ks.name, op, wn, pit, vol),
-								Run:  storeRunner(m, func(v string) interface{} { return wf(kv(op, ks.key(v), ks.val(v))) }, pit, vol),
-								Addr: ks.addr,
-							})
+							for _, later := range []bool{false, true} {
+								if later && (m == "GetAggregatedBalances" || strings.HasPrefix(m, "Count") || (!thorough && (op != "$match" || wn != "plain"))) {
+									continue
+								}
+								later := later
+								out = append(out, c20Case{
+									Name: fmt.Sprintf("store %s %s %s %s pit=%v volumes=%v later-page=%v", m, ks.name, op, wn, pit, vol, later),
+									Run:  storeRunner(m, func(v string) interface{} { return wf(kv(op, ks.key(v), ks.val(v))) }, pit, vol, later),
+									Addr: ks.addr,
+								})
+							}
 						}
 					}
 				}
@@ -230,6 +249,49 @@ func c20Cases(thorough bool) []c20Case {
 		v2("aggregate balances address"+pit, "GET", "aggregate/balances"+pit, func(v string) interface{} { return kv("$match", "address", v) }, true)
 	}
 	v2("logs date", "GET", "logs", func(v string) interface{} { return kv("$lt", "date", v) }, false)
+	// cursor tokens: the filter travels inside a token the client sends back (and can forge), at a later position
+	cursor := func(name, api, path string, mkTok func(qb query.Builder) string, mk func(v string) interface{}, addr bool) {
+		out = append(out, c20Case{Name: api + " cursor " + name, Addr: addr, Run: httpRunner(func(v string) (string, string, string) {
+			raw, _ := json.Marshal(mk(v))
+			qb, err := query.ParseJSON(string(raw))
+			if err != nil {
+				return "GET", "/nowhere", ""
+			}
+			prefix := "/api/ledger/v2/l1/"
+			if api == "v1" {
+				prefix = "/api/ledger/l1/"
+			}
+			return "GET", prefix + path + "?cursor=" + url.QueryEscape(mkTok(qb)), ""
+		})})
+	}
+	accTok := func(qb query.Builder) string {
+		q := ledgerstore.NewGetAccountsQuery(ledgerstore.NewPaginatedQueryOptions(ledgerstore.PITFilterWithVolumes{}).WithQueryBuilder(qb).WithPageSize(3))
+		q.Offset = 3
+		return bunpaginate.EncodeCursor(q)
+	}
+	txTok := func(qb query.Builder) string {
+		q := ledgerstore.NewGetTransactionsQuery(ledgerstore.NewPaginatedQueryOptions(ledgerstore.PITFilterWithVolumes{}).WithQueryBuilder(qb).WithPageSize(3))
+		q.PaginationID, q.Bottom = big.NewInt(7), big.NewInt(9)
+		return bunpaginate.EncodeCursor(q)
+	}
+	logTok := func(qb query.Builder) string {
+		q := ledgerstore.NewGetLogsQuery(ledgerstore.NewPaginatedQueryOptions[any](nil).WithQueryBuilder(qb).WithPageSize(3))
+		q.PaginationID, q.Bottom = big.NewInt(7), big.NewInt(9)
+		return bunpaginate.EncodeCursor(q)
+	}
+	for _, api := range []string{"v2", "v1"} {
+		cursor("accounts address", api, "accounts", accTok, func(v string) interface{} { return kv("$match", "address", v) }, true)
+		cursor("accounts metadata key", api, "accounts", accTok, func(v string) interface{} { return kv("$match", "metadata["+v+"]", "x") }, false)
+		cursor("accounts metadata value", api, "accounts", accTok, func(v string) interface{} { return kv("$match", "metadata[k]", v) }, false)
+		cursor("accounts balance asset", api, "accounts", accTok, func(v string) interface{} { return kv("$lt", "balance["+v+"]", 5) }, false)
+		cursor("transactions account", api, "transactions", txTok, func(v string) interface{} { return kv("$match", "account", v) }, true)
+		cursor("transactions source", api, "transactions", txTok, func(v string) interface{} { return kv("$match", "source", v) }, true)
+		cursor("transactions destination", api, "transactions", txTok, func(v string) interface{} { return kv("$match", "destination", v) }, true)
+		cursor("transactions reference", api, "transactions", txTok, func(v string) interface{} { return kv("$match", "reference", v) }, false)
+		cursor("transactions metadata key", api, "transactions", txTok, func(v string) interface{} { return kv("$match", "metadata["+v+"]", "x") }, false)
+		cursor("logs date", api, "logs", logTok, func(v string) interface{} { return kv("$lt", "date", v) }, false)
+	}
+	cursor("balances address", "v1", "balances", accTok, func(v string) interface{} { return kv("$match", "address", v) }, true)
 	// v1: query parameters
 	v1 := func(name, method, path, param string, addr bool, extra string) {
 		out = append(out, c20Case{Name: "v1 " + name, Addr: addr, Run: httpRunner(func(v string) (string, string, string) {
@@ -277,7 +339,21 @@ func c20() int {
 			shapes = addrShapes
 		}
 		for _, sh := range shapes {
-			for _, h := range hostile {
+			// besides the fixed list: "?name" for every identifier of the statement the harmless request sends (the SQL builder
+			// substitutes ?name / ?0 placeholders; a client value must never be read as one)
+			hs := hostile
+			if probe, rej := c.Run(fmt.Sprintf(sh, benign)); !rej {
+				seen := map[string]bool{}
+				for _, q := range probe {
+					for _, t := range pglex.Lex(q) {
+						if t.Kind == "ident" && !seen[t.Text] && len(seen) < 24 {
+							seen[t.Text] = true
+							hs = append(append([]string{}, hs...), "?"+t.Text)
+						}
+					}
+				}
+			}
+			for _, h := range hs {
 				val := fmt.Sprintf(sh, h)
 				// the harmless value of the same shape: same segmentation (for address patterns), every non-empty segment replaced
 				harmless := benign
@@ -330,6 +406,9 @@ func c20() int {
 			}
 		}
 	})
+	if accepted == 0 {
+		rep.Undecide("every request was rejected before any SQL was sent: the harness does not reach the SQL layer of this tree")
+	}
 	cov := evid.Coverage{
 		"evaluations":         int(evals),
 		"distinct_nontrivial": int(accepted),
